@@ -38,6 +38,10 @@ def run(ck, ctx):
     ck.rule("R15.8", "reply encoders are payload-transparent: a function that encodes a RespValue (and what it calls) never writes a "
                      "constant that is conditional on the payload's content (starts_with/contains/== on the text): such a rewrite makes "
                      "an emitted value decode to something else (e.g. `NOSCRIPT ..` re-decoding as `ERR NOSCRIPT ..`)")
+    ck.rule("R15.10", "every reply encoder opens each value with the marker its own kind is decoded by: on every path through the arm of a "
+                      "RespValue variant the first byte written is that variant's RESP marker (`+` simple string, `-` error, `:` integer, "
+                      "`$` bulk string - null included, `*` array - null included); a null array written as `$-1` decodes to a null bulk "
+                      "string, so the emitted value does not decode back to itself")
     ck.nd("prefix-stability and encode/decode identity for all values (needs execution or proof)")
     ck.assume("a dominating comparison against the input length is taken as a bound (its strength is not proven)")
     for cfg in ctx.configs:
@@ -52,6 +56,7 @@ def run(ck, ctx):
         _r155(ck, prog, cfg)
         prefix_rule(ck, prog, cfg, "R15.5")
         _r158(ck, prog, cfg)
+        _r1510(ck, prog, cfg)
     _r156(ck, ctx)
 
 
@@ -643,6 +648,22 @@ def prefix_rule(ck, prog, cfg, rid):
                      "inside the frame (any fragmentation of a valid stream) is answered with a protocol error instead of waiting for the rest"
                      % (name, txt), f.where(t["ln"]), detail="protocol errors only behind the completeness test")
         ck.ok(rid, "%s:no-rejection-before-complete%s" % (name, _tag(cfg)), "%d late error exits, all behind the completeness test" % n)
+        # ... and nothing may *accept* a payload before it either: a non-null bulk string is only returned behind the completeness test
+        # (an `Ok` with a consumed count the buffer does not hold makes the caller advance past the end: panic = abort)
+        m = 0
+        for b, i, st in f.stmts():
+            rv = st["rv"]
+            if rv["k"] == "agg" and rv.get("n", "").endswith("RespValueZeroCopy::BulkString") and rv.get("ops"):
+                pay = src_of_operand(f, rv["ops"][0])
+                is_none = pay.kind == "agg" and pay.rv.get("n", "").endswith("Option::None")
+                if is_none:
+                    continue
+                m += 1
+                ck.check(b == complete_t or f.dominates(complete_t, b), rid, "%s:payload-accepted-behind-completeness-test#%d%s" % (name, m, _tag(cfg)),
+                         "%s returns a bulk string with a payload on a path that has not compared the frame's total size with the bytes present: "
+                         "the consumed count can exceed the buffer (over-read / panic in advance()) and a prefix of a frame is decoded as a frame"
+                         % name, f.where(st["ln"]), detail="Ok(BulkString(Some(..))) only behind `total <= input.len()`")
+        ck.floor(rid + "-payload-exits" + _tag(cfg), m, 1)
 
 
 WRITES = (r"BufMut>::put_(u8|slice)$", r"BytesMut::(extend_from_slice|put_slice|put_u8)$", r"Vec::<u8>::(push|extend_from_slice)$",
@@ -691,3 +712,72 @@ def _r158(ck, prog, cfg):
         ck.ok("R15.8", "%s:transparent%s" % (e.short if e.short != "encode" else e.id.split("::")[-2] + "::encode", _tag(cfg)),
               "%d function(s) behind it analysed" % len(seen))
     ck.floor("R15.8-writes" + _tag(cfg), nw, 20)
+
+
+MARKER = {"SimpleString": "+", "Error": "-", "Integer": ":", "BulkString": "$", "Array": "*"}
+
+
+def _first_byte(txt):
+    if not txt:
+        return None
+    m = re.match(r"^(\d+)_u8$", txt)
+    if m:
+        return chr(int(m.group(1)))
+    m = re.match(r'^b?"(\\?.)', txt)
+    if m:
+        return m.group(1)
+    m = re.match(r"^b?'(.)'", txt)
+    if m:
+        return m.group(1)
+    return None
+
+
+def _r1510(ck, prog, cfg):
+    encs = [f for f in prog.lib_fns() if "{closure" not in f.id and "encode" in f.short
+            and any(isinstance(l, str) and re.match(r"&(redis::resp::RespValue|redis::resp_optimized::RespValueZeroCopy)$", l) for l in f.locals[1:1 + f.d["argc"]])]
+    n = 0
+    for e in encs:
+        ename = e.short if e.short != "encode" else e.id.split("::")[-2] + "::encode"
+        sw = None
+        for b in sorted(e.reachable_blocks()):
+            si = switch_info(e, b)
+            if si and si["kind"] == "discr" and re.search(r"resp(_optimized)?::RespValue(ZeroCopy)?$", si["ty"]):
+                sw = (b, si)
+                break
+        if sw is None:
+            continue
+        b0, si = sw
+        names = [v["n"] for v in prog.adts[si["ty"]]["variants"]]
+        writes = {b: t for b, t in e.calls() if is_callee(t, *WRITES) and len(t["args"]) >= 2}
+        for v, tg in e.term(b0)["cases"]:
+            var = names[int(v)]
+            if var not in MARKER:
+                continue
+            # first write on every path from the arm entry
+            firsts, seen, work = [], set(), [tg]
+            while work:
+                x = work.pop()
+                if x in seen:
+                    continue
+                seen.add(x)
+                if x in writes:
+                    firsts.append(writes[x])
+                    continue
+                for y in e.succ(x):
+                    work.append(y)
+            bad, undecided = [], 0
+            for t in firsts:
+                a = src_of_operand(e, t["args"][1], through_calls=TRANSPARENT)
+                fb = _first_byte(a.text if a.kind == "const" else None)
+                if fb is None:
+                    undecided += 1
+                elif fb != MARKER[var]:
+                    bad.append((t, fb))
+            if not firsts or undecided == len(firsts):
+                continue        # formatted through format!/write!: not decided here
+            n += 1
+            ck.check(not bad, "R15.10", "%s:%s:marker%s" % (ename, var, _tag(cfg)),
+                     "%s opens a %s with `%s` on some path (expected `%s`): the bytes decode to a value of another kind, so this reply does not "
+                     "decode back to the value that was emitted" % (ename, var, bad[0][1] if bad else "", MARKER[var]),
+                     e.where(bad[0][0]["ln"] if bad else None), detail="first byte `%s` on %d path(s)" % (MARKER[var], len(firsts)))
+    ck.floor("R15.10" + _tag(cfg), n, 10)
